@@ -4,6 +4,7 @@ from ..unit import run_unit
 from .. import camp_props, common
 from ..units.loop import Loop
 from ..units.small import Evaluator
+from ..units.linsolve import LinSolve
 
 PROP_FILES = ["props/C07.v"]
 TECHNIQUE = "Coq proof (invariants by induction over arbitrary step-oracle traces) + exact differential correspondence of Solver.solve with a scripted step oracle and virtual clock"
@@ -12,6 +13,7 @@ TECHNIQUE = "Coq proof (invariants by induction over arbitrary step-oracle trace
 def run(rep, tier, seed, scratch):
     g = Gen(seed)
     common.facts_obligations(rep, 'C07', scratch)
-    for u in (Evaluator(), Loop()):
+    # (LinSolve: a solve that did not converge must raise, or the failure cannot be survived at all)
+    for u in (Evaluator(), Loop(), LinSolve()):
         run_unit(rep, u, u.gen(g, tier), scratch)
     camp_props.run_C07(rep, tier, seed)
